@@ -125,6 +125,34 @@ def main():
                     st = se["steps"][-1]
                     R.violation("property", "after the history %s the check isinstance(array%s, Float[.., %r]) answers `%s`; by the dim-string semantics (proved model) it must answer `%s`" % (
                         [(x["dim"], tuple(x["shape"])) for x in se["steps"][:-1]], tuple(st["shape"]), st["dim"], iv, mv), {"session": se, "impl": iv, "model": mv}, key={"kind": "verdict-after-history", "dim": st["dim"]})
+    # ---- the term generated from the SOURCE of _check_dims (gen/CheckDimsSrc.v), interpreted inside Coq (model/PyL.v), against
+    # the function itself called on the same explicit inputs: validates the interpreter's reading of Python on this term
+    ncd = 6000 if R.thorough else 500
+    cdcases = []
+    for sess in sessions[:ncd * 3]:
+        for st in sess["steps"]:
+            if "*" in st["dim"] or "..." in st["dim"] or len(cdcases) >= ncd:
+                continue
+            toks = [t.split("=")[-1].lstrip("#_?") for t in st["dim"].split()]
+            single = {t: R.rng.choice([1, 2, 3, st["shape"][i] if i < len(st["shape"]) else 4]) for i, t in enumerate(toks) if t.isidentifier() and R.rng.random() < .4}
+            label = R.rng.choice([None, None, "(Leaf 0 in structure T) "])
+            if label and R.rng.random() < .5:
+                single = {label + k: v for k, v in single.items()}
+            shape = list(st["shape"]) if R.rng.random() < .9 else list(st["shape"]) + [2]
+            cdcases.append({"dim": st["dim"], "shape": shape, "single": single, "args": sess["args"], "label": label})
+    if cdcases:
+        cdo = vf.impl("impl_array.py", {"mode": "check_dims", "cases": cdcases})["rows"]
+        keep = [(c, r) for c, r in zip(cdcases, cdo) if r.get("out", "").startswith(("ret", "raise")) and not r.get("variadic")]
+        cterms = ["(%s, %s, %s, %s, %s, %s)" % (vf.coqopt(c["label"], vf.coqstr), G.symtab_coq(r.get("syms", [])), vf.coqstr(c["dim"]), vf.coqlist(c["shape"], vf.coqz),
+                                               vf.coqlist(list(c["single"].items()), lambda kv: "(%s, %s)" % (vf.coqstr(kv[0]), vf.coqz(kv[1]))),
+                                               vf.coqlist(sorted(c["args"].items()), lambda kv: "(%s, %s)" % (vf.coqstr(kv[0]), vf.coqz(kv[1])))) for c, r in keep]
+        cm = vf.coq_eval_strings(["model.PyL", "gen.CheckDimsSrc"], "fun c => let '(lbl, st, d, sh, sm, args) := c in run_src check_dims_src lbl st d sh sm args", cterms, shard=500)
+        for (c, r), m in zip(keep, cm):
+            R.count("check_dims_src:" + r["out"].split(" ")[0])
+            if r["out"] != m:
+                R.violation("correspondence", "_check_dims(%r dims, shape %s, bindings %s, label %r): the function gives `%s`, the interpretation of the term generated from its source gives `%s`" % (
+                    c["dim"], c["shape"], c["single"], c["label"], r["out"], m), {"case": c, "impl": r["out"], "interpreted_source": m}, key={"kind": "pyl-interpreter"}, no_input=True)
+        R.coverage["check_dims_source_term_cases"] = len(keep)
     if not proved:
         R.violation("proof", "proof obligations of props/C01.v no longer check: " + str(R.broken_proof)[-800:],
                     {"theorem_file": "coq/props/C01.v", "log": R.broken_proof}, no_input=not any(v["kind"] == "property" for v in R.violations))
